@@ -981,7 +981,7 @@ Proof.
   apply andb_true_iff in H as [A B]. constructor; [|auto]. apply not_mem_str. exact A.
 Qed.
 
-Open Scope string_scope.
+Local Open Scope string_scope.
 Definition ex_uw (c : N) : bool := N.eqb c 233.   (* only U+00E9 is a word character here *)
 Definition ex_G : list str :=
   [bs ".ad"; bs ".ad > b"; bs ".\61 d.x"; bs "#x"; bs "#x\.y p"; bs "div[ad]"; bs ".\110000 z"; bs "."].
